@@ -37,8 +37,31 @@
 //!                              from_resolved(T[a,b,c,d]) (T in V H)      (= Cob::id when g = x = y = 0)
 //!        | c g x y             the closed component of genus g with dots (x,y)
 //!   cob  = `{comp | comp ..} n= chi= deg= nb= inv= cl=` ; comp = `[src]>[tgt] g= d=x,y nb= chi= deg=`
+//!
+//! vertical composition (Cob::stack and what is built on it; model Model/TngStack.v):
+//!   sk <op> // <op> // ...     a script over the registers acc (Cob, initially empty), cur (Cob), the history of the
+//!                              stacked layers, acclc / curlc (LcCob<i64>)
+//!   layer = `K term ; term ..` (the terms joined by Cob::connect as in `cb`) | `N term ; term ..` (Cob::new of the
+//!           components of all terms);  further terms (explicit components through the public constructors):
+//!        n comps > comps @ g x y   CobComp::new(Tng::new(src), Tng::new(tgt), g, (x, y))
+//!        cup comp | cap comp | id comp | mg comp , comp > comp | sp comp > comp , comp | sd comp , comp > comp , comp
+//!   ops:
+//!     L layer          cur = layer                                                   -> L=<cob>
+//!     ST               acc.stack(cur) (also cur * acc, must agree), history += cur   -> st=<is_stackable> acc=<cob>
+//!     ID               Cob::id(cur.src()).stack(cur), cur.stack(Cob::id(cur.tgt()))  -> idl=<raw> eql= idr=<raw> eqr=
+//!     INV              cur.inv(); cur.stack(inv) == id(src), inv.stack(cur) == id(tgt) -> inv=<raw|-> ci=<raw> eq= ic= eq=
+//!     CO S|T comp N|X|Y   acc.cap_off(bottom, comp, dot)                             -> co=<cob>
+//!     SRC              acc.src(), acc.tgt()                                          -> src=[..] tgt=[..]
+//!     AS               the history stacked from the top down (right nested)          -> as=<raw> eq=<== acc>
+//!     PE h t           acc.part_eval(h, t) as LcCob<i64>                             -> pe=<lc>
+//!     LC r : layer | r : layer ..    curlc = LcCob::from_iter                        -> lc=<lc> inv=<is_invertible>
+//!     MUL              acclc = curlc * acclc (first: acclc = curlc)                  -> mul=<lc>
+//!     LPE h t          acclc = acclc.part_eval(h, t)                                 -> lpe=<lc>
+//!     LINV             curlc.inv() (at most one term)                                -> linv=<lc|->
+//!   raw = `{[src]>[tgt] g= d=x,y | ..}` ; lc = the terms `r*<raw with canonically oriented paths>^deg` sorted
 use std::collections::BTreeSet;
-use yui_kh::kh::internal::v2::cob::{Cob, CobComp};
+use yui_kh::kh::internal::v2::cob::{Bottom, Cob, CobComp, Dot, LcCob, LcCobTrait};
+use num_traits::Zero;
 use yui_kh::kh::internal::v2::tng::{Tng, TngComp};
 use yui::bitseq::Bit;
 use yui_link::{Crossing, CrossingType};
@@ -376,10 +399,277 @@ fn run_cx(body: &str) -> String {
     format!("able={} r={}", able as u8, r.map(|c| cc_str(&c)).unwrap_or("P".into()))
 }
 
+
+// ---------------------------------------------------------------------------------------------------
+// vertical composition: Cob::stack, cap_off, LcCob
+// ---------------------------------------------------------------------------------------------------
+type LcC = LcCob<i64>;
+
+fn cc_raw(c: &CobComp) -> String {
+    format!("[{}]>[{}] g={} d={}", tng_raw(c.src()), tng_raw(c.tgt()), c.genus(), dots_of(c))
+}
+
+fn cob_raw(c: &Cob) -> String {
+    format!("{{{}}}", c.comps().map(cc_raw).collect::<Vec<_>>().join(" | "))
+}
+
+fn canon_path(c: &TngComp) -> String {
+    let es: Vec<usize> = c.path().edges().iter().cloned().collect();
+    let mut best = es.clone();
+    let mut rv = es.clone();
+    rv.reverse();
+    if c.is_circle() {
+        for base in [&es, &rv] {
+            for k in 0..base.len() {
+                let mut x = base.clone();
+                x.rotate_left(k);
+                if x < best { best = x; }
+            }
+        }
+    } else if rv < best {
+        best = rv;
+    }
+    format!("{}{}", if c.is_circle() { "c" } else { "a" }, best.iter().map(|e| e.to_string()).collect::<Vec<_>>().join("."))
+}
+
+fn canon_cob(c: &Cob) -> String {
+    let comps: Vec<String> = c.comps().map(|cc| format!("[{}]>[{}] g={} d={}",
+        cc.src().comps().map(canon_path).collect::<Vec<_>>().join(" "),
+        cc.tgt().comps().map(canon_path).collect::<Vec<_>>().join(" "), cc.genus(), dots_of(cc))).collect();
+    format!("{{{}}}", comps.join(" | "))
+}
+
+fn lc_str(l: &LcC) -> String {
+    let mut ts: Vec<String> = l.iter().map(|(c, r)| format!("{}*{}^{}", r, canon_cob(c), opt(guarded(|| c.deg())))).collect();
+    ts.sort();
+    format!("({}){}", ts.len(), ts.join(" + "))
+}
+
+/// explicit component terms; None = malformed, Some(None) = a constructor panicked
+fn parse_cc_term(t: &str) -> Option<Option<CobComp>> {
+    let t = t.trim();
+    let (head, body) = t.split_once(' ').unwrap_or((t, ""));
+    let sides = |s: &str| -> Option<Option<(Vec<TngComp>, Vec<TngComp>)>> {
+        let (a, b) = s.split_once('>')?;
+        let (Some(a), Some(b)) = (parse_comps(a)?, parse_comps(b)?) else { return Some(None) };
+        Some(Some((a, b)))
+    };
+    match head {
+        "n" => {
+            let (st, gxy) = body.split_once('@')?;
+            let p = nums(&gxy.split_whitespace().collect::<Vec<_>>())?;
+            if p.len() != 3 { return None; }
+            let Some((a, b)) = sides(st)? else { return Some(None) };
+            Some(guarded(|| CobComp::new(Tng::new(a), Tng::new(b), p[0], (p[1], p[2]))))
+        }
+        "cup" | "cap" | "id" => {
+            let Some(c) = parse_comp(body)? else { return Some(None) };
+            Some(guarded(|| match head { "cup" => CobComp::cup(c), "cap" => CobComp::cap(c), _ => CobComp::id(c) }))
+        }
+        "mg" => {
+            let Some((a, b)) = sides(body)? else { return Some(None) };
+            if a.len() != 2 || b.len() != 1 { return None; }
+            Some(guarded(|| CobComp::merge((a[0].clone(), a[1].clone()), b[0].clone())))
+        }
+        "sp" => {
+            let Some((a, b)) = sides(body)? else { return Some(None) };
+            if a.len() != 1 || b.len() != 2 { return None; }
+            Some(guarded(|| CobComp::split(a[0].clone(), (b[0].clone(), b[1].clone()))))
+        }
+        "sd" => {
+            let Some((a, b)) = sides(body)? else { return Some(None) };
+            if a.len() != 2 || b.len() != 2 { return None; }
+            Some(guarded(|| CobComp::sdl((a[0].clone(), a[1].clone()), (b[0].clone(), b[1].clone()))))
+        }
+        _ => None,
+    }
+}
+
+fn parse_any_term(t: &str) -> Option<Option<(Cob, &'static str)>> {
+    match t.split_whitespace().next() {
+        Some("s") | Some("i") | Some("c") => parse_term(t),
+        _ => match parse_cc_term(t)? {
+            Some(c) => Some(guarded(|| (Cob::from(c), ""))),
+            None => Some(None),
+        },
+    }
+}
+
+/// `K term ; ..` | `N term ; ..` ; None = malformed, Some(None) = panic
+fn parse_layer(s: &str) -> Option<Option<(Cob, &'static str)>> {
+    let s = s.trim();
+    let (mode, body) = s.split_once(' ').unwrap_or((s, ""));
+    let mut mark = "";
+    let mut cobs = vec![];
+    for t in body.split(';') {
+        if t.trim().is_empty() { continue; }
+        match parse_any_term(t)? {
+            Some((c, m)) => { if !m.is_empty() { mark = m; } cobs.push(c); }
+            None => return Some(None),
+        }
+    }
+    match mode {
+        "K" => Some(guarded(|| {
+            let mut acc = Cob::empty();
+            for c in cobs { acc.connect(c); }
+            (acc, mark)
+        })),
+        "N" => Some(guarded(|| {
+            let comps: Vec<CobComp> = cobs.iter().flat_map(|c| c.comps().cloned().collect::<Vec<_>>()).collect();
+            (Cob::new(comps), mark)
+        })),
+        _ => None,
+    }
+}
+
+fn stacked(a: &Cob, b: &Cob) -> Option<Cob> {
+    guarded(|| { let mut r = a.clone(); r.stack(b.clone()); r })
+}
+
+fn b01(b: bool) -> &'static str { if b { "1" } else { "0" } }
+
+fn run_sk(body: &str) -> String {
+    let mut acc = Cob::empty();
+    let mut cur = Cob::empty();
+    let mut hist: Vec<Cob> = vec![];
+    let mut acclc: Option<LcC> = None;
+    let mut curlc: LcC = LcC::zero();
+    let mut out: Vec<String> = vec![];
+    macro_rules! stop { () => {{ out.push("P".into()); return out.join(" | "); }} }
+    macro_rules! bad { () => {{ out.push("BAD-OP".into()); return out.join(" | "); }} }
+    for op in body.split("//") {
+        let op = op.trim();
+        if op.is_empty() { continue; }
+        let (name, rest) = op.split_once(' ').unwrap_or((op, ""));
+        match name {
+            "L" => {
+                let Some(r) = parse_layer(rest) else { bad!() };
+                let Some((c, mark)) = r else { stop!() };
+                cur = c;
+                out.push(format!("L={}{}", cob_str(&cur), mark));
+            }
+            "ST" => {
+                let st = guarded(|| acc.is_stackable(&cur));
+                let m = guarded(|| cur.clone() * acc.clone());
+                let Some(r) = stacked(&acc, &cur) else { stop!() };
+                acc = r;
+                hist.push(cur.clone());
+                let s = cob_str(&acc);
+                let same = matches!(m, Some(ref t) if cob_str(t) == s);
+                out.push(format!("st={} acc={}{}", opt(st.map(|b| b01(b))), s, if same { "" } else { " ?mul" }));
+            }
+            "ID" => {
+                let r = guarded(|| (Cob::id(&cur.src()), Cob::id(&cur.tgt())));
+                let Some((ids, idt)) = r else { stop!() };
+                let e1 = stacked(&ids, &cur);
+                let e2 = stacked(&cur, &idt);
+                let f = |e: &Option<Cob>| match e { Some(c) => (cob_raw(c), b01(*c == cur)), None => ("P".to_string(), "P") };
+                let (s1, q1) = f(&e1);
+                let (s2, q2) = f(&e2);
+                out.push(format!("idl={} eql={} idr={} eqr={}", s1, q1, s2, q2));
+            }
+            "INV" => {
+                match guarded(|| cur.inv()) {
+                    None => stop!(),
+                    Some(None) => out.push("inv=-".into()),
+                    Some(Some(inv)) => {
+                        let ci = stacked(&cur, &inv);
+                        let ic = stacked(&inv, &cur);
+                        let ids = guarded(|| Cob::id(&cur.src()));
+                        let idt = guarded(|| Cob::id(&cur.tgt()));
+                        let f = |e: &Option<Cob>, i: &Option<Cob>| match (e, i) {
+                            (Some(c), Some(i)) => (cob_raw(c), b01(c == i)),
+                            (Some(c), None) => (cob_raw(c), "P"),
+                            _ => ("P".to_string(), "P") };
+                        let (s1, q1) = f(&ci, &ids);
+                        let (s2, q2) = f(&ic, &idt);
+                        out.push(format!("inv={} ci={} eq={} ic={} eq={}", cob_raw(&inv), s1, q1, s2, q2));
+                    }
+                }
+            }
+            "CO" => {
+                let w: Vec<&str> = rest.split_whitespace().collect();
+                if w.len() < 3 { bad!() }
+                let b = match w[0] { "S" => Bottom::Src, "T" => Bottom::Tgt, _ => bad!() };
+                let d = match w[w.len() - 1] { "N" => Dot::None, "X" => Dot::X, "Y" => Dot::Y, _ => bad!() };
+                let Some(c) = parse_comp(&w[1..w.len() - 1].join(" ")) else { bad!() };
+                let Some(c) = c else { stop!() };
+                let r = guarded(|| { let mut a = acc.clone(); a.cap_off(b, &c, d); a });
+                let Some(r) = r else { stop!() };
+                acc = r;
+                out.push(format!("co={}", cob_str(&acc)));
+            }
+            "SRC" => {
+                let s = guarded(|| acc.src()).map(|t| tng_raw(&t)).unwrap_or("P".into());
+                let t = guarded(|| acc.tgt()).map(|t| tng_raw(&t)).unwrap_or("P".into());
+                out.push(format!("src=[{}] tgt=[{}]", s, t));
+            }
+            "AS" => {
+                if hist.is_empty() { out.push("as=-".into()); continue; }
+                let mut r = Some(hist[hist.len() - 1].clone());
+                for k in (0..hist.len() - 1).rev() {
+                    r = match r { Some(x) => stacked(&hist[k], &x), None => None };
+                }
+                match r {
+                    Some(x) => out.push(format!("as={} eq={}", cob_raw(&x), b01(x == acc))),
+                    None => out.push("as=P".into()),
+                }
+            }
+            "PE" => {
+                let Some(p) = rest.split_whitespace().map(|w| w.parse::<i64>().ok()).collect::<Option<Vec<i64>>>() else { bad!() };
+                if p.len() != 2 { bad!() }
+                let r = guarded(|| { let l: LcC = acc.clone().part_eval(&p[0], &p[1]); l });
+                out.push(format!("pe={}", r.map(|l| lc_str(&l)).unwrap_or("P".into())));
+            }
+            "LC" => {
+                let mut terms: Vec<(Cob, i64)> = vec![];
+                for t in rest.split('|') {
+                    if t.trim().is_empty() { continue; }
+                    let Some((r, l)) = t.split_once(':') else { bad!() };
+                    let Some(r) = r.trim().parse::<i64>().ok() else { bad!() };
+                    let Some(c) = parse_layer(l) else { bad!() };
+                    let Some((c, _)) = c else { stop!() };
+                    terms.push((c, r));
+                }
+                let Some(l) = guarded(|| LcC::from_iter(terms)) else { stop!() };
+                curlc = l;
+                out.push(format!("lc={} inv={}", lc_str(&curlc), b01(curlc.is_invertible())));
+            }
+            "MUL" => {
+                let r = match &acclc {
+                    None => Some(curlc.clone()),
+                    Some(a) => guarded(|| &curlc * a),
+                };
+                let Some(r) = r else { stop!() };
+                out.push(format!("mul={}", lc_str(&r)));
+                acclc = Some(r);
+            }
+            "LPE" => {
+                let Some(p) = rest.split_whitespace().map(|w| w.parse::<i64>().ok()).collect::<Option<Vec<i64>>>() else { bad!() };
+                if p.len() != 2 { bad!() }
+                let Some(a) = acclc.clone() else { bad!() };
+                let Some(r) = guarded(|| a.part_eval(&p[0], &p[1])) else { stop!() };
+                out.push(format!("lpe={}", lc_str(&r)));
+                acclc = Some(r);
+            }
+            "LINV" => {
+                if curlc.nterms() > 1 { out.push("linv=?".into()); continue; }
+                match guarded(|| curlc.inv()) {
+                    None => stop!(),
+                    Some(None) => out.push("linv=-".into()),
+                    Some(Some(i)) => out.push(format!("linv={}", lc_str(&i))),
+                }
+            }
+            _ => bad!(),
+        }
+    }
+    out.join(" | ")
+}
+
 fn run_case(line: &str) -> String {
     let line = line.trim();
     let (kind, body) = line.split_once(' ').unwrap_or((line, ""));
-    let r = guarded(|| match kind { "pc" => run_pc(body), "cb" => run_cb(body), "cx" => run_cx(body), _ => run_script(body) });
+    let r = guarded(|| match kind { "pc" => run_pc(body), "cb" => run_cb(body), "cx" => run_cx(body), "sk" => run_sk(body), _ => run_script(body) });
     r.unwrap_or("P-CASE".into())
 }
 
@@ -636,6 +926,259 @@ fn gen_cx(r: &mut Rng, maxc: usize) -> String {
     format!("cx {} ; {}", a, b)
 }
 
+
+// ---------------------------------------------------------------------------------------------------
+// generators for vertical composition (abstract surfaces: every group of components of the current tangle goes to
+// new components with the same end points; never call the implementation)
+// ---------------------------------------------------------------------------------------------------
+#[derive(Clone, Debug, PartialEq)]
+struct GComp { closed: bool, es: Vec<usize> }
+
+#[derive(Clone, Debug)]
+struct GGroup { src: Vec<GComp>, tgt: Vec<GComp>, g: u64, x: u64, y: u64 }
+
+fn gc_str(c: &GComp) -> String {
+    format!("{} {}", if c.closed { "c" } else { "a" }, c.es.iter().map(|e| e.to_string()).collect::<Vec<_>>().join(" "))
+}
+
+/// the same component in another stored orientation / rotation (== for the library)
+fn reorient(c: &GComp, r: &mut Rng) -> GComp {
+    let mut es = c.es.clone();
+    if r.bool() { es.reverse(); }
+    if c.closed && !es.is_empty() { let k = r.below(es.len() as u64) as usize; es.rotate_left(k); }
+    GComp { closed: c.closed, es }
+}
+
+fn fresh_labels(n: usize, fresh: &mut usize) -> Vec<usize> {
+    let v: Vec<usize> = (0..n).map(|i| *fresh + i).collect();
+    *fresh += n;
+    v
+}
+
+fn random_gtangle(r: &mut Rng, fresh: &mut usize) -> Vec<GComp> {
+    let na = r.below(4) as usize;
+    let nc = r.below(3) as usize;
+    let mut t = vec![];
+    for _ in 0..na { let n = 2 + r.below(3) as usize; let mut es = fresh_labels(n, fresh); if r.bool() { shuffle(&mut es, r); } t.push(GComp { closed: false, es }); }
+    for _ in 0..nc { let n = 1 + r.below(3) as usize; let mut es = fresh_labels(n, fresh); if r.bool() { shuffle(&mut es, r); } t.push(GComp { closed: true, es }); }
+    shuffle(&mut t, r);
+    t
+}
+
+fn gen_group_tgt(r: &mut Rng, src: &[GComp], fresh: &mut usize, iso: bool) -> Vec<GComp> {
+    let arcs: Vec<&GComp> = src.iter().filter(|c| !c.closed).collect();
+    let circs: Vec<&GComp> = src.iter().filter(|c| c.closed).collect();
+    let mut tgt = vec![];
+    if iso {
+        for a in arcs.iter() {
+            let mut es = vec![a.es[0]]; es.extend(fresh_labels(r.below(2) as usize, fresh)); es.push(*a.es.last().unwrap());
+            tgt.push(if r.bool() { (*a).clone() } else { GComp { closed: false, es } });
+        }
+        for c in circs.iter() { tgt.push(if r.bool() { (*c).clone() } else { GComp { closed: true, es: fresh_labels(1 + r.below(2) as usize, fresh) } }); }
+        return tgt;
+    }
+    if !arcs.is_empty() {
+        if r.chance(2, 5) {
+            for a in arcs.iter() { tgt.push((*a).clone()); }
+        } else {
+            let mut ends: Vec<usize> = arcs.iter().flat_map(|a| vec![a.es[0], *a.es.last().unwrap()]).collect();
+            shuffle(&mut ends, r);
+            for k in 0..ends.len() / 2 {
+                let mut es = vec![ends[2 * k]]; es.extend(fresh_labels(r.below(3) as usize, fresh)); es.push(ends[2 * k + 1]);
+                tgt.push(GComp { closed: false, es });
+            }
+        }
+    }
+    if !circs.is_empty() && r.chance(2, 5) {
+        for c in circs.iter() { tgt.push((*c).clone()); }
+    } else {
+        let n = if src.is_empty() { 1 + r.below(2) } else { r.below(3) };
+        for _ in 0..n { tgt.push(GComp { closed: true, es: fresh_labels(1 + r.below(3) as usize, fresh) }); }
+    }
+    tgt
+}
+
+/// genus and dots of a generated component: mostly plain, and a budget per case keeps part_eval small
+/// (2^genus leaves; coefficients stay far below i64::MAX)
+fn budget_gxy(r: &mut Rng, budget: &mut (u64, u64)) -> (u64, u64, u64) {
+    if r.chance(3, 4) { return (0, 0, 0); }
+    let g = r.below(3).min(budget.0);
+    budget.0 -= g;
+    let x = r.below(3).min(budget.1);
+    budget.1 -= x;
+    let y = r.below(3).min(budget.1);
+    budget.1 -= y;
+    (g, x, y)
+}
+
+fn gen_glayer(r: &mut Rng, cur: &[GComp], fresh: &mut usize, iso: bool, budget: &mut (u64, u64)) -> Vec<GGroup> {
+    let mut comps: Vec<GComp> = cur.to_vec();
+    shuffle(&mut comps, r);
+    let mut groups = vec![];
+    let mut i = 0;
+    while i < comps.len() {
+        let k = if iso { 1 } else { match r.below(6) { 0 | 1 | 2 => 1, 3 | 4 => 2, _ => 3 } }.min(comps.len() - i);
+        let src: Vec<GComp> = comps[i..i + k].to_vec();
+        i += k;
+        let tgt = gen_group_tgt(r, &src, fresh, iso);
+        let (g, x, y) = if iso { (0, 0, 0) } else { budget_gxy(r, budget) };
+        groups.push(GGroup { src, tgt, g, x, y });
+    }
+    if !iso && r.chance(1, 3) {
+        let tgt = gen_group_tgt(r, &[], fresh, false);
+        let (g, x, y) = budget_gxy(r, budget);
+        groups.push(GGroup { src: vec![], tgt, g, x, y });
+    }
+    if !iso && r.chance(1, 10) {
+        let (g, x, y) = (r.below(3).min(budget.0), r.below(3).min(budget.1), 0);
+        budget.0 -= g; budget.1 -= x;
+        groups.push(GGroup { src: vec![], tgt: vec![], g, x, y: y + r.below(2) });
+    }
+    shuffle(&mut groups, r);
+    groups
+}
+
+fn comps_lit(cs: &[GComp], r: &mut Rng, re: bool) -> String {
+    cs.iter().map(|c| gc_str(&if re { reorient(c, r) } else { c.clone() })).collect::<Vec<_>>().join(" , ")
+}
+
+fn group_term(r: &mut Rng, g: &GGroup) -> String {
+    let plain = g.g == 0 && g.x == 0 && g.y == 0;
+    let (s, t) = (&g.src, &g.tgt);
+    if plain && r.chance(2, 3) {
+        if s.is_empty() && t.len() == 1 && t[0].closed { return format!("cup {}", gc_str(&t[0])); }
+        if s.len() == 1 && t.is_empty() { return format!("cap {}", gc_str(&reorient(&s[0], r))); }
+        if s.len() == 1 && t.len() == 1 && s[0] == t[0] { return format!("id {}", gc_str(&s[0])); }
+        if s.len() == 2 && t.len() == 1 && (s[0].closed || s[1].closed) { return format!("mg {} > {}", comps_lit(s, r, true), comps_lit(t, r, false)); }
+        if s.len() == 1 && t.len() == 2 && (t[0].closed || t[1].closed) { return format!("sp {} > {}", comps_lit(s, r, true), comps_lit(t, r, false)); }
+        if s.len() == 2 && t.len() == 2 && s.iter().chain(t.iter()).all(|c| !c.closed) && s.iter().all(|a| t.iter().all(|b| a != b)) {
+            return format!("sd {} > {}", comps_lit(s, r, true), comps_lit(t, r, false));
+        }
+    }
+    format!("n {} > {} @ {} {} {}", comps_lit(s, r, true), comps_lit(t, r, false), g.g, g.x, g.y)
+}
+
+fn layer_lit(r: &mut Rng, groups: &[GGroup]) -> String {
+    format!("N {}", groups.iter().map(|g| group_term(r, g)).collect::<Vec<_>>().join(" ; "))
+}
+
+fn tgt_of(groups: &[GGroup]) -> Vec<GComp> { groups.iter().flat_map(|g| g.tgt.clone()).collect() }
+
+fn co_op(r: &mut Rng, t: &[GComp], side: &str) -> Option<String> {
+    let cs: Vec<&GComp> = t.iter().filter(|c| c.closed).collect();
+    if cs.is_empty() { return None; }
+    let c = reorient(*r.pick(&cs), r);
+    Some(format!("CO {} {} {}", side, gc_str(&c), r.pick(&["N", "X", "Y"])))
+}
+
+fn small_ht(r: &mut Rng) -> (i64, i64) { (r.range(-2, 3), r.range(-2, 2)) }
+
+/// explicit layers over abstract tangles
+fn gen_sk_n(r: &mut Rng) -> String {
+    let mut fresh = r.below(4) as usize;
+    let t0 = random_gtangle(r, &mut fresh);
+    let mut t = t0.clone();
+    let nl = 2 + r.below(3) as usize;
+    let mut ops = vec![];
+    let mut layers: Vec<String> = vec![];
+    let mut budget = (3u64, 6u64);
+    for _ in 0..nl {
+        let iso = r.chance(1, 6);
+        let groups = gen_glayer(r, &t, &mut fresh, iso, &mut budget);
+        layers.push(layer_lit(r, &groups));
+        t = tgt_of(&groups);
+    }
+    // malformed: drop a term, or swap two layers
+    if r.chance(1, 12) {
+        if r.bool() && layers.len() >= 2 { let k = layers.len(); layers.swap(0, k - 1); }
+        else { let k = r.below(layers.len() as u64) as usize; let mut ts: Vec<&str> = layers[k][2..].split(" ; ").collect(); if ts.len() > 1 { ts.remove(0); } layers[k] = format!("N {}", ts.join(" ; ")); }
+    }
+    for l in layers.iter() {
+        ops.push(format!("L {}", l));
+        if r.chance(1, 4) { ops.push("ID".into()); }
+        if r.chance(1, 4) { ops.push("INV".into()); }
+        ops.push("ST".into());
+    }
+    ops.push("AS".into());
+    ops.push("SRC".into());
+    if r.chance(1, 3) { if let Some(o) = co_op(r, &t, "T") { ops.push(o); } }
+    if r.chance(1, 4) { if let Some(o) = co_op(r, &t0, "S") { ops.push(o); } }
+    if r.chance(1, 3) { let (h, t) = small_ht(r); ops.push(format!("PE {} {}", h, t)); }
+    format!("sk {}", ops.join(" // "))
+}
+
+/// consecutive edges of the cube of resolutions: saddle at one crossing, cylinders over the resolutions of the others
+fn gen_sk_k(r: &mut Rng, maxc: usize) -> String {
+    let mut pd = random_pd(r, maxc);
+    shuffle(&mut pd, r);
+    if r.chance(1, 3) { let k = 2 + r.below(pd.len() as u64) as usize; pd.truncate(k.min(pd.len())); }
+    let n = pd.len();
+    let types: Vec<bool> = (0..n).map(|_| r.bool()).collect();              // true = X, false = Xm
+    let mut state: Vec<bool> = (0..n).map(|_| r.chance(1, 3)).collect();
+    let nflip = (1 + r.below(3) as usize).min(n);
+    let mut order: Vec<usize> = (0..n).collect();
+    shuffle(&mut order, r);
+    for &i in order[..nflip].iter() { state[i] = false; }
+    let mut ops = vec![];
+    for (step, &i) in order[..nflip].iter().enumerate() {
+        let mut terms = vec![];
+        for q in 0..n {
+            let e = &pd[q];
+            let (g, x, y) = if r.chance(1, 8) { (r.below(2), r.below(2), r.below(2)) } else { (0, 0, 0) };
+            if q == i {
+                terms.push(format!("s {} {} {} {} {} {} {} {}", if types[q] { 'X' } else { 'M' }, e[0], e[1], e[2], e[3], g, x, y));
+            } else {
+                let horizontal = types[q] != state[q];                         // (X,0) | (Xm,1) -> H
+                terms.push(format!("i {} {} {} {} {} {} {} {}", if horizontal { 'H' } else { 'V' }, e[0], e[1], e[2], e[3], g, x, y));
+            }
+        }
+        shuffle(&mut terms, r);
+        ops.push(format!("L K {}", terms.join(" ; ")));
+        if step == 0 && r.chance(1, 4) { ops.push("ID".into()); }
+        ops.push("ST".into());
+        state[i] = true;
+    }
+    ops.push("AS".into());
+    ops.push("SRC".into());
+    if r.chance(1, 4) { let (h, t) = small_ht(r); ops.push(format!("PE {} {}", h, t)); }
+    format!("sk {}", ops.join(" // "))
+}
+
+/// linear combinations: every stage offers 1-3 cobordisms between the same tangles (coarsenings, other genus / dots)
+fn gen_sk_lc(r: &mut Rng) -> String {
+    let mut fresh = r.below(4) as usize;
+    let mut t = random_gtangle(r, &mut fresh);
+    let stages = 2 + r.below(2) as usize;
+    let mut ops = vec![];
+    let mut budget = (2u64, 4u64);
+    for _ in 0..stages {
+        let iso = r.chance(1, 5);
+        let groups = gen_glayer(r, &t, &mut fresh, iso, &mut budget);
+        let nalt = if iso { 1 } else { 1 + r.below(3) as usize };
+        let mut alts = vec![];
+        for a in 0..nalt {
+            let mut gs = groups.clone();
+            if a > 0 {
+                if gs.len() >= 2 && r.bool() {
+                    let j = gs.remove(1 + r.below(gs.len() as u64 - 1) as usize);
+                    gs[0].src.extend(j.src); gs[0].tgt.extend(j.tgt);
+                    gs[0].x += j.x; gs[0].y += j.y;
+                }
+                for g in gs.iter_mut() { if r.chance(1, 3) { let (gg, x, y) = budget_gxy(r, &mut budget); g.g = gg; g.x = x; g.y = y; } }
+            }
+            let coef = if iso { *r.pick(&[1i64, -1, 1, -1, 2]) } else { r.range(-2, 2) };
+            alts.push(format!("{} : {}", coef, layer_lit(r, &gs)));
+        }
+        ops.push(format!("LC {}", alts.join(" | ")));
+        if iso || r.chance(1, 6) { ops.push("LINV".into()); }
+        ops.push("MUL".into());
+        t = tgt_of(&groups);
+    }
+    let (h, tt) = small_ht(r);
+    ops.push(format!("LPE {} {}", h, tt));
+    format!("sk {}", ops.join(" // "))
+}
+
 fn fixed_cases() -> Vec<String> {
     let mut v: Vec<String> = vec![
         // the unit tests of tng.rs / path.rs
@@ -681,6 +1224,27 @@ fn fixed_cases() -> Vec<String> {
         "cx s X 1 2 3 4 0 0 0 ; i V 5 6 7 8 0 0 0".into(),
         "cx s X 1 2 3 4 0 0 0 ; i V 2 6 7 3 0 1 0".into(),
         "cx c 0 0 0 ; i V 2 6 7 3 0 1 0".into(),
+        // cob.rs unit tests: stack_closed, stack_cup_cap, stack_cap_cup, stack_comps, stack_id, stack_torus, inv, mor_inv
+        "sk L N c 0 0 0 // ST // L N c 1 0 0 // ST // AS".into(),
+        "sk L N cup c 0 // ST // L N cap c 0 // ST // AS // PE 0 0".into(),
+        "sk L N cap c 0 // ST // L N cup c 0 // ST // AS".into(),
+        "sk L N id a 0 1 ; cup c 2 // ST // L N cap c 2 ; id a 0 1 // ST // AS // SRC".into(),
+        "sk L N s X 0 1 2 3 0 0 0 ; cup c 4 ; cap c 5 // ID // ST // SRC".into(),
+        "sk L N cup c 0 // ST // L N sp c 0 > c 1 , c 2 // ST // L N mg c 1 , c 2 > c 3 // ST // L N cap c 3 // ST // AS // PE 1 2 // PE 0 0".into(),
+        "sk L N id a 0 1 ; n c 2 > c 3 @ 0 0 0 // INV // ID // ST".into(),
+        "sk L N sd a 1 2 , a 3 4 > a 1 3 , a 2 4 // INV // ID".into(),
+        "sk LC -1 : N id a 0 1 ; id a 2 3 // LINV // MUL // LC 2 : N id a 0 1 ; id a 2 3 // LINV // MUL".into(),
+        // connect_incr_genus with cap_off
+        "sk L N n a 1 2 , a 3 4 > a 1 2 , a 3 4 @ 0 0 0 // ST // L K n a 1 2 , a 3 4 > a 1 2 , a 3 4 @ 0 0 0 ; id a 1 3 ; id a 2 4 // SRC // ID".into(),
+        "sk L N n c 1 , c 2 > c 1 , c 2 @ 1 0 0 // ST // CO S c 1 N // CO T c 2 X // CO S c 2 Y // CO T c 1 N // PE 1 1".into(),
+        "sk L N id c 1 // ST // CO S c 1 X // CO T c 1 N // CO T c 1 N".into(),
+        "sk L N id a 1 2 // ST // CO S a 1 2 N".into(),
+        // part_eval unit test: X^2 = 2X
+        "sk LC -2 : N n c 1 > c 1 @ 0 1 0 | 1 : N n c 1 > c 1 @ 0 2 0 // MUL // LPE 2 0".into(),
+        // not stackable: release build goes on
+        "sk L N id a 0 1 // ST // L N id a 2 3 // ST // AS".into(),
+        "sk L N cup c 1 // ST // L N id c 1 ; id c 1 // ST".into(),
+        "sk L N id c 1 ; id c 2 // ST // L N n c 1 , c 2 > c 3 @ 0 0 0 ; id c 1 // ST // AS".into(),
     ];
     // every table diagram, every complete resolution of the small ones
     for (_, pd) in table_knots() {
@@ -705,6 +1269,7 @@ fn main() {
             let (n, maxc) = if thorough { (80000, 14) } else { (8000, 9) };
             for i in 0..n {
                 let c = match i % 12 {
+                    8 => match (i / 12) % 4 { 0 | 1 => gen_sk_n(&mut r), 2 => gen_sk_k(&mut r, maxc.min(6)), _ => gen_sk_lc(&mut r) },
                     10 => gen_cb(&mut r, maxc.min(8)),
                     11 => if i % 24 == 11 { gen_cx(&mut r, maxc.min(8)) } else { gen_cb(&mut r, maxc.min(8)) },
                     0 => gen_kc(&mut r, maxc),
